@@ -371,3 +371,25 @@ Theorem C17_quota_locked_nonvacuous :
   fst s = {| q_n := 2; q_lock := false |} /\ map l_pc (snd s) = [LCreated; LBusy; LFailed].
 Proof. exact quota_locked_witness. Qed.
 Print Assumptions C17_quota_locked_nonvacuous.
+
+(* ---- what the quota count counts: the client's index tracks the records under concurrent lists ---- *)
+
+(* Create writes the by-id record and then appends the id to the client's index; a List drops index entries whose record is
+   missing.  For ANY number of concurrent creates (distinct ids) and of concurrent lists and EVERY schedule of their storage
+   calls: every index entry has its record, every code whose Create has returned is in the index and stored, and the count
+   the quota compares with its limit is the whole index — no existing code is missed *)
+Theorem C17_quota_index_tracks_records :
+  forall (ids : list N) (lists : list nat) (sched : list nat),
+  let s := irun RecordFirst {| i_stored := []; i_index := [] |} (map (fun id => ICreate id 0) ids ++ map IList lists) sched in
+  (forall k, In k (i_index (fst s)) -> In k (i_stored (fst s))) /\
+  (forall id n, In (ICreate id (S (S n))) (snd s) -> In id (i_stored (fst s)) /\ In id (i_index (fst s))) /\
+  i_counted (fst s) = length (i_index (fst s)).
+Proof. exact index_tracks_records. Qed.
+Print Assumptions C17_quota_index_tracks_records.
+
+(* the two writes swapped (NOT the code): append, LIST, record — the code exists, its Create has returned, it is not counted *)
+Theorem C17_quota_index_first_refuted :
+  exists sched, let s := irun IndexFirst {| i_stored := []; i_index := [] |} [ICreate 7 0; IList 1] sched in
+                snd s = [ICreate 7 2; IList 0] /\ i_stored (fst s) = [7%N] /\ i_counted (fst s) = 0.
+Proof. exact index_first_refuted. Qed.
+Print Assumptions C17_quota_index_first_refuted.
